@@ -224,6 +224,15 @@ def find_dump_sites(pkg_path):
                 tree = ast.parse(open(p, encoding="utf-8").read())
             except SyntaxError as e:
                 raise Fatal(f"{p}: {e}")
+            owner = {}
+            def mark(n, prefix):
+                for ch in ast.iter_child_nodes(n):
+                    name = prefix
+                    if isinstance(ch, (ast.FunctionDef, ast.AsyncFunctionDef, ast.ClassDef)):
+                        name = (prefix + "." if prefix else "") + ch.name
+                    owner[id(ch)] = name
+                    mark(ch, name)
+            mark(tree, "")
             for node in ast.walk(tree):
                 if isinstance(node, ast.Call) and isinstance(node.func, ast.Attribute) \
                         and node.func.attr in ("model_dump", "model_dump_json", "model_dump_mcp", "dict", "json"):
@@ -240,6 +249,7 @@ def find_dump_sites(pkg_path):
                     if node.func.attr in ("dict", "json") and not recv.replace("_", "").replace(".", "").isidentifier():
                         continue
                     sites.append({"file": os.path.relpath(p, pkg_path), "line": node.lineno, "call": node.func.attr,
+                                  "function": owner.get(id(node), ""),
                                   "receiver": recv, "by_alias": by_alias, "kwargs_star": star})
     return sites
 
